@@ -176,6 +176,18 @@ def certificate(m, d, mm, dd, cfg):
     if w == 0 and H.same_constraints(m, d, dd, w, frames=(cfg["cone"] == "pyramidal")):
       st["compared"] = st.get("compared", 0) + 1
       Minv_q = np.linalg.solve(M, qsm[w, :nv]) if nv else np.zeros(0)
+      # the two engines must be solving the same problem: row masses per constraint type as multisets
+      dbad = None
+      for t in sorted(set(int(x) for x in d.efc_type)):
+        dm_ = np.sort(np.asarray(d.efc_D)[np.asarray(d.efc_type) == t])
+        dw_ = np.sort(D[w, :nefc][typ[w, :nefc] == t])
+        if len(dm_) != len(dw_) or np.any(np.abs(dm_ - dw_) > 1e-3 * np.abs(dm_) + 1e-9):
+          dbad = {"site": "efc_D-vs-mujoco", "world": w, "type": t, "jacobian": cfg["jacobian"], "mujoco_D": dm_.tolist()[:12], "mjw_D": dw_.tolist()[:12]}
+          break
+      if dbad is not None:
+        dbad["qacc_relative_error"] = float(np.max(np.abs(a - d.qacc)) / (np.max(np.abs(d.qacc)) + 1.0))
+        fails.append(dbad)
+        continue
 
       def gauss(acc):
         e = acc - Minv_q
@@ -208,6 +220,25 @@ def certificate(m, d, mm, dd, cfg):
   return fails, st
 
 
+def directed_scenes():
+  """Small hand-written systems run on every check in addition to the random scenes: an equality whose body has no
+  joint of its own (welded to its parent), under both Jacobian storages."""
+  out = []
+  for jac in ("dense", "sparse"):
+    for kind in ("connect", "weld"):
+      eq = '<connect body1="c" body2="b" anchor="0 0 0"/>' if kind == "connect" else '<weld body1="c" body2="b"/>'
+      xml = (
+        f'<mujoco><option jacobian="{jac}" tolerance="1e-10"/><worldbody>'
+        '<body name="a" pos="0 0 1"><freejoint/><geom size=".1"/><body name="c" pos=".3 0 0"><geom size=".05"/></body></body>'
+        '<body name="b" pos="1 0 1"><freejoint/><geom size=".1"/></body>'
+        f"</worldbody><equality>{eq}</equality></mujoco>"
+      )
+      qpos = np.array([0, 0, 1, 1, 0, 0, 0, 1.02, 0.01, 1, 1, 0, 0, 0], dtype=np.float64)
+      qvel = np.array([0.3, 0, 0, 0, 0.5, 0, -0.2, 0.1, 0, 0, 0, 0.4], dtype=np.float64)
+      out.append((xml, qpos, qvel, {"cone": "pyramidal", "solver": "Newton", "jacobian": jac, "impratio": 1.0, "adhesion": False, "directed": f"{kind}-on-jointless-body"}))
+  return out
+
+
 CONFIGS = [
   ("pyramidal", "Newton", "dense"), ("elliptic", "Newton", "dense"), ("pyramidal", "CG", "dense"), ("elliptic", "CG", "dense"),
   ("elliptic", "Newton", "sparse"), ("pyramidal", "Newton", "sparse"), ("pyramidal", "CG", "sparse"), ("elliptic", "CG", "sparse"),
@@ -220,6 +251,15 @@ def forward_oracle(res, nscenes):
   rng = np.random.default_rng(vlib.seed() + 6)
   fails = []
   agg = {"rows": 0, "worst_force": 0.0, "worst_kkt": 0.0, "worst_qacc": 0.0, "worst_cost_gap": -1.0, "niter": 0, "compared": 0}
+  for xml, qpos, qvel, cfg in directed_scenes():
+    m, d, mm, dd = H.run_forward(xml, qpos, qvel)
+    cfg.update({"kkt_tol": 2e-3, "qacc_tol": 5e-2, "cost_tol": 1e-4, "warmstart": True})
+    f, st = certificate(m, d, mm, dd, cfg)
+    res.count()
+    res.nontrivial(("directed", cfg["directed"], cfg["jacobian"]))
+    agg["compared"] += st.get("compared", 0)
+    for x in f[:2]:
+      fails.append({"xml": xml, "qpos": qpos.tolist(), "qvel": qvel.tolist(), "config": cfg, "failure": x})
   for k in range(nscenes):
     cone, solver, jac = CONFIGS[k % len(CONFIGS)]
     nowarm = k % 5 == 4
@@ -272,8 +312,17 @@ def run(res):
     tm["tvalid"] = round(time.time() - t0, 1)
   fails = forward_oracle(res, (16 if quick else 160) * (2 if search else 1))
   tm["forward"] = round(time.time() - t0, 1)
-  for f in fails[:4]:
-    res.violation(f"C06:forward:{f['failure']['site']}:{f['config']['cone']}:{f['config']['solver']}", f"after forward(): {f['failure']}", f)
+  seen = set()
+  for f in fails:
+    x = f["failure"]
+    if x["site"] == "efc_D-vs-mujoco":  # same rows, different row mass: the two engines solve different problems
+      key = f"C06:forward:efc_D-vs-mujoco:type{x['type']}:{x['jacobian']}"
+    else:
+      key = f"C06:forward:{x['site']}:{f['config']['cone']}:{f['config']['solver']}"
+    if key in seen or len(seen) >= 5:
+      continue
+    seen.add(key)
+    res.violation(key, f"after forward(): {x}", f)
   if tbad and not fails:
     res.violation("C06:translator-mismatch", "translated Gallina disagrees with compiled Warp function (model no longer tied to code)", tbad[:3], found_input=False)
   if pbad and not fails and not tbad:
